@@ -117,6 +117,9 @@ func (g *geom1) Coords() []Coord {
 
 // NumCoords returns the number of coordinates in g.
 func (g *geom1) NumCoords() int {
+	if g.stride == 0 {
+		return 0
+	}
 	return len(g.flatCoords) / g.stride
 }
 
@@ -339,6 +342,9 @@ func inflate0(flatCoords []float64, offset, end, stride int) Coord {
 }
 
 func inflate1(flatCoords []float64, offset, end, stride int) []Coord {
+	if stride == 0 {
+		return nil
+	}
 	coords1 := make([]Coord, (end-offset)/stride)
 	for i := range coords1 {
 		coords1[i] = inflate0(flatCoords, offset, offset+stride, stride)
